@@ -134,6 +134,33 @@ func solve(o *Obl, workdir string, timeout int, thorough bool) *Result {
 	start := time.Now()
 	ctx, cancel := context.WithCancel(context.Background())
 	defer cancel()
+	// Stage 0 (quick tier): the same query with every quantified ASSUMPTION dropped. Fewer
+	// assumptions can only make the goal harder, so `unsat` here proves the full obligation; it
+	// keeps ground goals (bounds, decisions) from drowning in quantifier instantiation.
+	if !thorough && !o.Cover {
+		var sb strings.Builder
+		lines := strings.Split(q, "\n")
+		dropped := 0
+		for i, ln := range lines {
+			isGoal := strings.HasPrefix(ln, "(assert (not ") && i >= len(lines)-4
+			if strings.HasPrefix(ln, "(assert ") && !isGoal && (strings.Contains(ln, "(forall ") || strings.Contains(ln, "(exists ")) {
+				dropped++
+				continue
+			}
+			sb.WriteString(ln + "\n")
+		}
+		if dropped > 0 {
+			f0 := strings.TrimSuffix(file, ".smt2") + ".qf.smt2"
+			_ = os.WriteFile(f0, []byte(sb.String()), 0o644)
+			a := runSolver(ctx, solvers[0], f0, 3)
+			res.Log = append(res.Log, fmtf("%s[no quantified assumptions]: %s (%.2fs)", a.solver, a.verdict, a.secs))
+			if a.verdict == "unsat" {
+				res.Verdict, res.Solver, res.Secs = "unsat", a.solver+"(ground)", time.Since(start).Seconds()
+				res.Agree = []string{a.solver}
+				return res
+			}
+		}
+	}
 	answers := make(chan solverAnswer, len(solvers))
 	var wg sync.WaitGroup
 	launch := func(sp solverSpec) {
